@@ -13,19 +13,24 @@ pub mod any {
     /// symbolic-friendly stand-in for std::any::TypeId
     #[derive(Clone, Copy, Debug, PartialEq, Eq, Hash)]
     pub struct TypeId(pub u8);
-    pub trait Tid {
-        const ID: u8;
-    }
     impl TypeId {
-        pub fn of<T: Tid>() -> TypeId {
-            TypeId(T::ID)
+        /// same observable behaviour as std::any::TypeId::of on the types nameable through the public
+        /// API (distinct types <-> distinct ids); any other type gets 255
+        pub fn of<T: 'static + ?Sized>() -> TypeId {
+            let t = std::any::TypeId::of::<T>();
+            macro_rules! tid {
+                ($($ty:ty = $n:expr),*) => {$(if t == std::any::TypeId::of::<$ty>() { return TypeId($n); })*};
+            }
+            tid!(bool = 0, char = 1, u8 = 2, u16 = 3, u32 = 4, u64 = 5, i8 = 6, i16 = 7, i32 = 8, i64 = 9, f32 = 10, f64 = 11, () = 12,
+                 crate::leaf::Asn = 13, crate::leaf::IpAddr = 14, crate::leaf::Prefix = 15, crate::RotoString = 16);
+            // the harness's marker types R<N> stand for the Rust type with id N
+            macro_rules! rid {
+                ($($n:expr),*) => {$(if t == std::any::TypeId::of::<crate::value::R<$n>>() { return TypeId($n); })*};
+            }
+            rid!(0, 1, 2, 3, 4, 5, 6, 7, 8, 9, 10, 11, 12, 13, 14, 15, 16);
+            TypeId(255)
         }
     }
-    macro_rules! tid {
-        ($($t:ty = $n:expr),*) => {$(impl Tid for $t { const ID: u8 = $n; })*};
-    }
-    tid!(bool = 0, char = 1, u8 = 2, u16 = 3, u32 = 4, u64 = 5, i8 = 6, i16 = 7, i32 = 8, i64 = 9, f32 = 10, f64 = 11, () = 12,
-         crate::leaf::Asn = 13, crate::leaf::IpAddr = 14, crate::leaf::Prefix = 15, crate::RotoString = 16);
 }
 pub mod leaf {
     pub struct Asn;
@@ -259,6 +264,8 @@ pub mod value {
 }
 
 pub mod codegen {
+    #[allow(unused_imports)]
+    use crate::any::TypeId;
     use crate::typechecker::{info::TypeInfo, types};
     use check::{check_roto_type_reflect, FunctionRetrievalError, RotoFunc};
     use std::marker::PhantomData;
